@@ -17,6 +17,13 @@ ModuleForms == {"import", "import_as"}       \* bind the module object
 NameForms   == {"from", "from_as"}           \* bind the value of the module's v
 
 StmtsOver(forms, targets) == { [form |-> f, t |-> t] : f \in forms, t \in targets }
+(* from t import u [as mx]  where u is the NAME OF A MODULE: succeeds only if t really has an attribute u   *)
+(* (t's body executed  import u ,  from x import u  or a star-import that copied it), whatever the module   *)
+(* table holds under u - loaded before, later or never.                                                      *)
+ModNameForms == {"frommod", "frommod_as"}
+ModNameStmts(targets, names) == { [form |-> f, t |-> t, u |-> u] : f \in ModNameForms, t \in targets, u \in names }
+ImportForms == Forms \cup ModNameForms
+AnyStmt == StmtsOver(Forms, Targets) \cup ModNameStmts(Targets, Mods)
 
 (* Names a namespace can hold.  Every source module binds v, _h and pub in one step of its    *)
 (* body ("set"); w is only ever bound by  from t import v as w.                               *)
@@ -35,11 +42,11 @@ Kinds == {"src", "gosrc", "goglob"}          \* file on sys.path / registered Go
 (* cfg = [mods |-> [m \in Mods |-> [kind, pre, post, all, raises]], main |-> sequence of statements] *)
 ModOK(c) == /\ c.kind \in Kinds /\ c.all \in AllVariants /\ c.raises \in RaiseVariants
             /\ Len(c.pre) <= 2 /\ Len(c.post) <= 2
-            /\ \A i \in 1..Len(c.pre) : c.pre[i] \in StmtsOver(Forms, Targets)
-            /\ \A i \in 1..Len(c.post) : c.post[i] \in StmtsOver(Forms, Targets)
+            /\ \A i \in 1..Len(c.pre) : c.pre[i] \in AnyStmt
+            /\ \A i \in 1..Len(c.post) : c.post[i] \in AnyStmt
             /\ (c.kind = "goglob" => c.pre = <<>> /\ c.post = <<>> /\ c.raises = "no")
 CfgOK(c) == /\ DOMAIN c.mods = Mods /\ \A m \in Mods : ModOK(c.mods[m])
-            /\ Len(c.main) \in 1..4 /\ \A i \in 1..Len(c.main) : c.main[i] \in StmtsOver(Forms, Targets)
+            /\ Len(c.main) \in 1..4 /\ \A i \in 1..Len(c.main) : c.main[i] \in AnyStmt
 
 Plain(pre, post) == [kind |-> "src", pre |-> pre, post |-> post, all |-> "no", raises |-> "no"]
 
@@ -87,6 +94,17 @@ FlatStmts == StmtsOver(Forms, {"ma", "mb"}) \cup StmtsOver({"import_as", "from",
 SeqsUpTo(S, n) == {<<a>> : a \in S} \cup (IF n >= 2 THEN {<<a, b>> : a \in S, b \in S} ELSE {})
                                \cup (IF n >= 3 THEN {<<a, b, c>> : a \in S, b \in S, c \in S} ELSE {})
 FlatFamily(n) == { [mods |-> FlatMods(a), main |-> s] : a \in AllVariants, s \in SeqsUpTo(FlatStmts, n) }
+
+(* --- family "modname": does  from t import u  consult anything but t's own attributes?  ma may import mb   *)
+(* (before or after its definitions), mb may import mc; the main program is any sequence of 1..3 statements *)
+(* over  import m  and  from t import u  (t in {ma, mb}, u in {mb, mc}): u loaded before, later or never,    *)
+(* u an attribute of t or not.                                                                               *)
+ModNameMods == { [m \in Mods |-> IF m = "ma" THEN Plain(a.pre, a.post) ELSE IF m = "mb" THEN Plain(<<>>, b) ELSE Plain(<<>>, <<>>)] :
+                   a \in { [pre |-> <<>>, post |-> <<>>], [pre |-> <<[form |-> "import", t |-> "mb"]>>, post |-> <<>>],
+                            [pre |-> <<>>, post |-> <<[form |-> "import", t |-> "mb"]>>] },
+                   b \in { <<>>, <<[form |-> "import", t |-> "mc"]>> } }
+ModNameFamily == { [mods |-> ms, main |-> q] : ms \in ModNameMods,
+                     q \in SeqsUpTo(StmtsOver({"import"}, Mods) \cup { [form |-> "frommod", t |-> t, u |-> u] : t \in {"ma", "mb"}, u \in {"mb", "mc"} }, 3) }
 
 (* --- family "raise": two modules with at most one import each and a body that may raise;    *)
 (* the main program imports one of them, then ma, then a name of mb.                          *)
